@@ -39,6 +39,9 @@ inductive FMode where
 
 structure Slot where
   num : Nat
+  /-- the kind the exported struct DECLARES (field of type `mesgdef.X` / `*mesgdef.X` / `[]*mesgdef.X`; `dropped` = no such field) -/
+  decl : Kind
+  /-- the kind the probe OBSERVED (two tagged messages added: which come back) -/
   kind : Kind
   m1 : FMode
   m253 : FMode
